@@ -60,7 +60,8 @@ MkCfg(r, sh) ==
       n == 1 + (d[21] % 4)
   IN [kfs |-> [i \in 1..n |-> Kf(i)], de |-> Pick(<<1, 1, 14, 3>>, d[22]),
       tm |-> Pick(<< [cyc |-> 4, del |-> 0, rep |-> -1, rev |-> FALSE], [cyc |-> 8, del |-> 2, rep |-> 1, rev |-> TRUE],
-                     [cyc |-> 2, del |-> 1, rep |-> -2, rev |-> FALSE], [cyc |-> 6, del |-> 0, rep |-> 2, rev |-> FALSE] >>, d[23])]
+                     [cyc |-> 2, del |-> 1, rep |-> -2, rev |-> FALSE], [cyc |-> 6, del |-> 0, rep |-> 2, rev |-> FALSE],
+                     [cyc |-> 4, del |-> 1, rep |-> 0, rev |-> TRUE] >>, d[23])]
 
 Init == \E i \in 1..NShapes :
           LET r == ((((Seed * 7919) + (i * 104729)) % 65521) + 1) IN
